@@ -95,7 +95,8 @@ def frame_lines(stream, delimiter, max_length, actions=None, state_out=None):
                 return ev, "none"
 
 
-def frame_intn(stream, prefix_len, max_length, actions=None, state_out=None):
+def frame_intn(stream, prefix_len, max_length, actions=None, state_out=None, decode=None):
+    """decode: header bytes (prefix_len of them) -> length; default = unsigned big-endian integer."""
     actions = actions or {}
     ev = []
     pos = 0
@@ -103,7 +104,8 @@ def frame_intn(stream, prefix_len, max_length, actions=None, state_out=None):
     n = len(stream)
     _note(state_out, pos, k, max_length)
     while n - pos >= prefix_len:
-        length = int.from_bytes(stream[pos:pos + prefix_len], "big")
+        header = stream[pos:pos + prefix_len]
+        length = decode(header) if decode is not None else int.from_bytes(header, "big")
         if length > max_length:
             ev.append(("exceeded", length))
             ev.append(("close",))
